@@ -1450,6 +1450,135 @@ fn run_tuple(
     }
 }
 
+/// evaluate `form` and `reference` (program texts over a, b, c, d, e) and file a disagreement
+fn raw_compare(ctx: &Ctx, rep: &mut Report, key: &str, vals: &[(&str, Obj)], names: &[&str], form: &str, reference: &str) {
+    let binds: Vec<(&str, Obj)> = names.iter().zip(vals.iter()).map(|(n, v)| (*n, v.1.clone())).collect();
+    let spec = class(&ctx.eval_with(&binds, reference));
+    let rust = class(&ctx.eval_with(&binds, form));
+    let mut input = String::from("raw");
+    for (n, v) in names.iter().zip(vals.iter()) {
+        input.push_str(&format!(" | {} := {}", n, v.0));
+    }
+    input.push_str(&format!(" | form: {} | ref: {}", form, reference));
+    rep.case(&input, spec.starts_with("ok"));
+    if rust != spec {
+        let n = rep.arms.get(&format!("disagreements of {}", key)).cloned().unwrap_or(0);
+        rep.arm(&format!("disagreements of {}", key));
+        if n >= 3 {
+            return;
+        }
+    }
+    rep.judge(key, &input, &rust, &spec, &spec);
+}
+
+/// (1) chain sections with 2-3 operators of different precedence, the placeholder(s) in every
+/// operand position, against the direct chain; (2) call / bang / splat / apply / of / section forms
+/// with 3-5 arguments of the variadic builtins against the infix chain.
+fn chain_and_nary_sweep(ctx: &Ctx, rep: &mut Report, rng: &mut Rng, shard: usize, nshards: usize, thorough: bool) {
+    let names = ["a", "b", "c", "d", "e"];
+    let val = |src: &'static str| -> (&'static str, Obj) {
+        match ctx.eval_in(&ctx.top, &format!("({})", src)) {
+            Out::Ok(o) => (src, o),
+            o => panic!("value {} failed: {}", src, detail(&o)),
+        }
+    };
+    let nums: Vec<(&str, Obj)> = ["0", "1", "2", "3", "5", "(0-2)", "(1/2)", "1.5"].iter().map(|s| val(s)).collect();
+    let ops = ["+", "-", "*", "/", "//", "%", "max", "min", "<", "=="];
+    let mut idx = 0usize;
+    // (1) chain sections
+    let rounds = if thorough { 4000 } else { 500 };
+    for _ in 0..rounds {
+        idx += 1;
+        let nops = 2 + rng.below(2) as usize;
+        let chosen: Vec<&str> = (0..nops).map(|_| *rng.pick(&ops)).collect();
+        let vals: Vec<(&str, Obj)> = (0..nops + 1).map(|_| rng.pick(&nums).clone()).collect();
+        if idx % nshards != shard {
+            continue;
+        }
+        let direct = {
+            let mut s = names[0].to_string();
+            for (i, o) in chosen.iter().enumerate() {
+                s.push_str(&format!(" {} {}", o, names[i + 1]));
+            }
+            s
+        };
+        // every non-empty set of operand positions as placeholders (at most 2 of them)
+        for mask in 1u32..(1 << (nops + 1)) {
+            if mask.count_ones() > 2 {
+                continue;
+            }
+            let mut sect = String::new();
+            let mut supplied = vec![];
+            for i in 0..=nops {
+                if i > 0 {
+                    sect.push_str(&format!(" {} ", chosen[i - 1]));
+                }
+                if mask & (1 << i) != 0 {
+                    sect.push('_');
+                    supplied.push(names[i]);
+                } else {
+                    sect.push_str(names[i]);
+                }
+            }
+            let form = format!("({})({})", sect, supplied.join(", "));
+            rep.arm("chain section with several operators");
+            raw_compare(ctx, rep, &format!("chainsec:{}:{:b}", chosen.join(","), mask), &vals, &names[..nops + 1], &form, &direct);
+        }
+    }
+    // (2) n-ary call forms of the variadic builtins
+    let ints: Vec<(&str, Obj)> = ["0", "1", "2", "3"].iter().map(|s| val(s)).collect();
+    let seqs: Vec<(&str, Obj)> = ["[1,2]", "[3]", "[]", "\"ab\"", "[4,5,6]"].iter().map(|s| val(s)).collect();
+    let variadic: [(&str, bool); 10] = [
+        ("<", false), ("<=", false), (">", false), (">=", false), ("==", false), ("!=", false), ("max", false), ("min", false),
+        ("zip", true), ("ziplongest", true),
+    ];
+    for (op, on_seqs) in variadic.iter() {
+        for n in 3..=5usize {
+            let tuples = if thorough { 300 } else if n == 3 { 64 } else { 40 };
+            for t in 0..tuples {
+                idx += 1;
+                let domain = if *on_seqs { &seqs } else { &ints };
+                let vals: Vec<(&str, Obj)> = if n == 3 && !*on_seqs && t < 64 {
+                    // all triples over 0..3
+                    vec![ints[t % 4].clone(), ints[(t / 4) % 4].clone(), ints[(t / 16) % 4].clone()]
+                } else {
+                    (0..n).map(|_| rng.pick(domain).clone()).collect()
+                };
+                if idx % nshards != shard {
+                    continue;
+                }
+                let ns = &names[..n];
+                let args = ns.join(", ");
+                let chain = ns.join(&format!(" {} ", op));
+                let mut forms: Vec<(String, String)> = vec![
+                    ("call".into(), format!("{}({})", op, args)),
+                    ("bang".into(), format!("{} ! {}", op, args)),
+                    ("splatAll".into(), format!("{}(...[{}])", op, args)),
+                    ("splatTail".into(), format!("{}({}, ...[{}])", op, ns[0], ns[1..].join(", "))),
+                    ("apply".into(), format!("[{}] apply {}", args, op)),
+                    ("of".into(), format!("{} of [{}]", op, args)),
+                    ("secall".into(), format!("{}({})({})", op, vec!["_"; n].join(", "), args)),
+                    ("calleeSlot".into(), format!("_({})({})", args, op)),
+                    ("lastSection".into(), format!("{}({})({})", op, ns[n - 1], ns[..n - 1].join(", "))),
+                ];
+                for i in 0..n {
+                    let mut with_hole: Vec<&str> = ns.to_vec();
+                    with_hole[i] = "_";
+                    forms.push((format!("sec{}", i), format!("{}({})({})", op, with_hole.join(", "), ns[i])));
+                }
+                for (fname, src) in forms {
+                    // `f(last)(rest…)` is PartialAppLast only for max / min / zip; comparisons build PartialApp2
+                    if fname == "lastSection" && !["max", "min", "zip", "ziplongest"].contains(op) {
+                        continue;
+                    }
+                    rep.arm(&format!("n-ary {}/{}", fname, n));
+                    raw_compare(ctx, rep, &format!("nary:{}:{}/{}", op, fname, n), &vals, ns, &src, &chain);
+                }
+            }
+        }
+    }
+}
+
 /// Several application forms of ONE user closure (defined in the program, with 0, 1 or 2 captured
 /// locals) applied one after the other in one frame, with an op-assignment in between — evaluated
 /// as written and after the optimiser pass (`optimize_expr`, the CLI's -O, which turns the closure
@@ -1675,6 +1804,8 @@ fn shard_main(args: &Args, shard: usize, nshards: usize, progress: &str) {
     }
     let _ = std::fs::write(progress, "sequences");
     sequence_sweep(&ctx, &mut rep, &pool, &mut rng, shard, nshards, thorough);
+    let _ = std::fs::write(progress, "chains and n-ary calls");
+    chain_and_nary_sweep(&ctx, &mut rep, &mut rng, shard, nshards, thorough);
     let _ = std::fs::write(progress, "done");
     rep.write(&args.out);
 }
@@ -1765,6 +1896,26 @@ fn replay(args: &Args, path: &str) {
             None => continue,
         };
         let head = rest.split("   [").next().unwrap_or(rest);
+        if rest.starts_with("raw | ") {
+            let mut binds: Vec<(String, Obj)> = vec![];
+            let (mut form, mut reference) = (String::new(), String::new());
+            for part in rest.split(" | ").skip(1) {
+                if let Some(f) = part.strip_prefix("form: ") {
+                    form = f.to_string();
+                } else if let Some(r) = part.strip_prefix("ref: ") {
+                    reference = r.to_string();
+                } else if let Some((n, src)) = part.split_once(" := ") {
+                    if let Out::Ok(o) = ctx.eval_in(&ctx.top, &format!("({})", src)) {
+                        binds.push((n.to_string(), o));
+                    }
+                }
+            }
+            let b: Vec<(&str, Obj)> = binds.iter().map(|(n, o)| (n.as_str(), o.clone())).collect();
+            println!("{}", rest);
+            println!("  form:      {}", detail(&ctx.eval_with(&b, &form)));
+            println!("  reference: {}", detail(&ctx.eval_with(&b, &reference)));
+            continue;
+        }
         if rest.starts_with("seq ") {
             // a sequence program: re-run it as written and through the optimiser
             let program = rest.splitn(2, "   [").nth(1).and_then(|p| p.strip_suffix(']')).unwrap_or("");
